@@ -280,6 +280,10 @@ macro_rules! impl_variant {
                         format!("{:*^149}", self.0),
                         format!("{:.8}", self.0),
                         format!("{:10.3}", self.0),
+                        format!("{:#}", self.0),
+                        format!("{:+}", self.0),
+                        format!("{:0200}", self.0),
+                        format!("{:#>+90.70}", self.0),
                     ]
                 })
             }
